@@ -6,7 +6,7 @@ wedge-par scenario families of C11 (NoHang on the real engine)."""
 import vlib
 
 CFG = '''SPECIFICATION Spec
-CONSTANTS N = %d W = %d DispatchReadsErrs = %s DrainWhileWaitingWorkers = %s UnsentNack = "%s"
+CONSTANTS N = %d W = %d HoldPolicy = "%s" DrainWhileWaitingWorkers = %s
 INVARIANTS TypeOK AllResolved UnsentLast InOrder
 %s
 '''
@@ -14,14 +14,15 @@ INVARIANTS TypeOK AllResolved UnsentLast InOrder
 
 def run_design(chk, quick):
     f = [vlib.SPEC + "/datapath/ParallelNode.tla"]
-    variants = [("code", 5, 2, "TRUE", "TRUE", "deferred", None, False),
-                ("before-F33", 5, 2, "FALSE", "FALSE", "deferred", "Deadlock", False),
-                ("dispatcher-fix-only", 5, 2, "TRUE", "FALSE", "deferred", "Deadlock", False)]
+    variants = [("code", 5, 2, "drain", "TRUE", None, False),
+                ("before-F33", 5, 2, "ignore", "FALSE", "Deadlock", False),
+                ("dispatcher-fix-only", 5, 2, "drain", "FALSE", "Deadlock", False)]
     if not quick:
-        variants += [("code", 6, 3, "TRUE", "TRUE", "deferred", None, False),
-                     ("sync-nack", 8, 3, "TRUE", "TRUE", "sync", "Deadlock", True)]
-    for name, n, w, dre, dww, un, expect, sim in variants:
-        r = vlib.tlc_run("ParallelNode", CFG % (n, w, dre, dww, un, "" if sim else "PROPERTIES Finishes"), f,
+        variants += [("code", 6, 3, "drain", "TRUE", None, False),
+                     ("give-up-with-the-message-in-hand", 5, 2, "giveup", "TRUE", None, False),
+                     ("give-up-and-nack-at-once", 8, 3, "giveup-sync", "TRUE", "Deadlock", True)]
+    for name, n, w, pol, dww, expect, sim in variants:
+        r = vlib.tlc_run("ParallelNode", CFG % (n, w, pol, dww, "" if sim else "PROPERTIES Finishes"), f,
                          name="ParallelNode-%s-%d-%d" % (name, n, w), timeout=1800,
                          simulate="num=3000000" if sim else None, depth=80 if sim else None, seed=7 if sim else None)
         if r["error"]:
@@ -35,4 +36,4 @@ def run_design(chk, quick):
             name, n, w, ", -simulate" if sim else "",
             "no deadlock, Finishes, AllResolved, UnsentLast, InOrder hold" if expect is None else
             "TLC finds the deadlock, as intended (design-level counterpart of fixed finding F33%s)" % (
-                "; the rejected repair" if name == "sync-nack" else "")))
+                "; a repair that was tried and dropped" if name.startswith("give-up") else "")))
